@@ -283,12 +283,64 @@ def extract(tree):
     im2 = re.search(r"if\s*\(\s*mode\s*==\s*2\s*\)\s*\{\s*janet_chan_unlock\s*\(\s*channel\s*\)\s*;\s*return\s+1\s*;\s*\}", push)
     iwp = push.find("janet_q_push(&channel->write_pending")
     flags["mode2NeverParks"] = bool(im2 and iwp >= 0 and im2.end() <= iwp)
+    # ---- message payload codec (Thread/Payload.lean): pack = janet_marshal UNSAFE, unpack = janet_unmarshal UNSAFE, same passthrough set
+    pk, up = func_body(ev, "janet_chan_pack"), func_body(ev, "janet_chan_unpack")
+    flags["packUsesMarshalUnsafe"] = bool(re.search(r"default\s*:\s*\{.*?janet_marshal\s*\(\s*buf\s*,\s*\*x\s*,\s*NULL\s*,\s*JANET_MARSHAL_UNSAFE\s*\)\s*;\s*\*x\s*=\s*janet_wrap_buffer\s*\(\s*buf\s*\)", pk, re.S))
+    flags["unpackUsesUnmarshalUnsafe"] = bool(
+        re.search(r"case\s+JANET_BUFFER\s*:\s*\{[^}]*int\s+flags\s*=\s*is_cleanup\s*\?\s*\(\s*JANET_MARSHAL_UNSAFE\s*\|\s*JANET_MARSHAL_DECREF\s*\)\s*:\s*JANET_MARSHAL_UNSAFE\s*;\s*"
+                  r"\*x\s*=\s*janet_unmarshal\s*\(\s*buf->data\s*,\s*buf->count\s*,\s*flags\s*,\s*NULL\s*,\s*NULL\s*\)", up, re.S)
+        and re.search(r"default\s*:\s*return\s+1\s*;", up))
+
+    def raw_cases(b):
+        return sorted(set(re.findall(r"case\s+(JANET_[A-Z]+)\s*:", b)) - {"JANET_BUFFER"})
+    flags["packUnpackSamePassthrough"] = bool(raw_cases(pk) == raw_cases(up) == ["JANET_BOOLEAN", "JANET_CFUNCTION", "JANET_NIL", "JANET_NUMBER", "JANET_POINTER"])
+    # JANET_MARSHAL_UNSAFE is consulted in pointer-like cases only (C09's data-graph theorem is flag independent)
+    ctxs = []
+    for m in re.finditer(r"JANET_MARSHAL_UNSAFE", marsh):
+        if re.match(r"\s+0x", marsh[m.end():m.end() + 8]):
+            continue
+        back = marsh[:m.start()]
+        c1 = list(re.finditer(r"case\s+(\w+)\s*:", back))
+        f1 = list(re.finditer(r"\n(?:static\s+)?[\w \*]+?\b(\w+)\s*\([^;{)]*\)\s*\{", back))
+        ci, fi = (c1[-1].start() if c1 else -1), (f1[-1].start() if f1 else -1)
+        name = c1[-1].group(1) if ci > fi else (f1[-1].group(1) if f1 else "?")
+        ctxs.append(name)
+    allowed = {"janet_marshal_ptr", "marshal_one_abstract", "JANET_BUFFER", "JANET_CFUNCTION", "JANET_POINTER", "janet_unmarshal_ptr",
+               "LB_UNSAFE_POINTER", "LB_POINTER_BUFFER", "LB_UNSAFE_CFUNCTION", "LB_THREADED_ABSTRACT"}
+    flags["unsafeFlagOnlyPointerLike"] = bool(ctxs and set(ctxs) <= allowed)
+    if not flags["unsafeFlagOnlyPointerLike"]:
+        flags["unsafeFlagOnlyPointerLike"] = False
+    unsafe_ctxs = sorted(set(ctxs))
+    # ---- lock types (ev/lock, ev/rwlock): threaded abstracts without marshal hooks, finalizer = deinit of the OS primitive,
+    # every operation locks / unlocks the primitive inside the abstract's memory (RAct.use)
+    def type_init(name):
+        m = re.search(r"const\s+JanetAbstractType\s+%s\s*=\s*\{([^}]*)\}" % name, ev)
+        if not m:
+            raise ExtractError("abstract type %s not found" % name)
+        return [x.strip() for x in m.group(1).split(",") if x.strip()]
+    mt, rt = type_init("janet_mutex_type"), type_init("janet_rwlock_type")
+    flags["lockTypesNoMarshalHook"] = bool(mt == ['"core/lock"', "mutexgc", "JANET_ATEND_GC"] and rt == ['"core/rwlock"', "rwlockgc", "JANET_ATEND_GC"])
+    flags["lockTypesThreaded"] = bool(
+        re.search(r"janet_abstract_threaded\s*\(\s*&janet_mutex_type\s*,\s*janet_os_mutex_size\s*\(\s*\)\s*\)\s*;\s*janet_os_mutex_init\s*\(\s*mutex\s*\)", _corefn_body(ev, "janet_cfun_mutex"))
+        and re.search(r"janet_abstract_threaded\s*\(\s*&janet_rwlock_type\s*,\s*janet_os_rwlock_size\s*\(\s*\)\s*\)\s*;\s*janet_os_rwlock_init\s*\(\s*rwlock\s*\)", _corefn_body(ev, "janet_cfun_rwlock")))
+    flags["lockFinalizerDeinitsOnly"] = bool(
+        re.fullmatch(r"\{\s*\(void\)\s*size\s*;\s*janet_os_mutex_deinit\s*\(\s*p\s*\)\s*;\s*return\s+0\s*;\s*\}", func_body(ev, "mutexgc").strip())
+        and re.fullmatch(r"\{\s*\(void\)\s*size\s*;\s*janet_os_rwlock_deinit\s*\(\s*p\s*\)\s*;\s*return\s+0\s*;\s*\}", func_body(ev, "rwlockgc").strip()))
+    ops = [("janet_cfun_mutex_acquire", "janet_mutex_type", "janet_os_mutex_lock"), ("janet_cfun_mutex_release", "janet_mutex_type", "janet_os_mutex_unlock"),
+           ("janet_cfun_rwlock_read_lock", "janet_rwlock_type", "janet_os_rwlock_rlock"), ("janet_cfun_rwlock_write_lock", "janet_rwlock_type", "janet_os_rwlock_wlock"),
+           ("janet_cfun_rwlock_read_release", "janet_rwlock_type", "janet_os_rwlock_runlock"), ("janet_cfun_rwlock_write_release", "janet_rwlock_type", "janet_os_rwlock_wunlock")]
+    flags["lockOpsUseAbstractMemory"] = all(
+        re.search(r"void\s*\*\s*(\w+)\s*=\s*janet_getabstract\s*\(\s*argv\s*,\s*0\s*,\s*&%s\s*\)\s*;\s*%s\s*\(\s*\1\s*\)\s*;\s*return\s+argv\[0\]\s*;" % (ty, fn), _corefn_body(ev, cf))
+        for cf, ty, fn in ops)
+    # in marshal_one_abstract the threaded (pointer + incref) path is taken before any type hook is consulted
+    ithr, ihook = ma.find("LB_THREADED_ABSTRACT"), ma.find("at->marshal")
+    flags["threadedPathBeforeTypeHook"] = bool(0 <= ithr < ihook and re.search(r"MARK_SEEN\s*\(\s*\)\s*;\s*return\s*;", ma[ithr:ihook]))
     sw = func_body(gc, "janet_sweep")
     flags["sweepDecrefFrees"] = bool(re.search(r"if\s*\(\s*!\s*janet_truthy\s*\(\s*items\[i\]\.value\s*\)\s*\)\s*\{[^}]*if\s*\(\s*0\s*==\s*janet_abstract_decref\s*\(\s*abst\s*\)\s*\)", sw, re.S)
                                      and "janet_free(janet_abstract_head(abst))" in sw)
     mk = func_body(gc, "janet_mark_abstract")
     flags["markSetsVisited"] = bool(re.search(r"janet_table_put\s*\(\s*&janet_vm\.threaded_abstracts\s*,[^;]*janet_wrap_true", mk))
-    return {"flags": flags, "locks": locks, "hook_present": "janet_verif_sched_point" in ev, "wplan": wplan, "rplan": rplan}
+    return {"flags": flags, "locks": locks, "hook_present": "janet_verif_sched_point" in ev, "wplan": wplan, "rplan": rplan, "unsafe_ctxs": unsafe_ctxs}
 
 
 def render(facts):
@@ -305,6 +357,7 @@ def render(facts):
             "⟨%s, %d, %s, .%s⟩" % ("true" if a else "false", m, "true" if w else "false", k) for a, m, w, k in steps)))
     plan("threadWritePlan", facts["wplan"], "cfun_ev_thread: segments marshalled into the start-up buffer, in order (always, mask, wantSet, kind)")
     plan("threadReadPlan", facts["rplan"], "janet_go_thread_subr: segments read back from the buffer, in order")
+    o.append("\n-- JANET_MARSHAL_UNSAFE is consulted in: %s" % ", ".join(facts.get("unsafe_ctxs", [])))
     o.append("\n-- janet_chan_lock / janet_chan_unlock call counts per function (lock discipline; informational)")
     for k in sorted(facts["locks"]):
         o.append("-- %s: %d lock, %d unlock" % (k, facts["locks"][k][0], facts["locks"][k][1]))
